@@ -35,12 +35,17 @@ default fold descriptor: k-th occurrence of a condition is fold k             C0
                                                                                 by occurrence)
 poisson_cv(a,b) = mean over ordered pairs m != n of                           C02/poisson-value (orc_poisson), plus fold
   (l_am-l_bm).(log l_an - log l_bn) / P, l = (mean + lambda*w)/(1+w)            relabelling of poisson_cv; input_class
-                                                                                'poisson_cv' (KNOWN FINDING on the pinned tree:
-                                                                                only the last fold is returned)
+                                                                                'poisson_cv' (finding F1: up to 90de72c3 only
+                                                                                the last fold was returned; repaired in /repo
+                                                                                9bef06dc, see C02_findings.md)
 poisson_cv: no within-fold product, observation / channel order invariance,   C02/poisson-structure (orc_poisson_structure):
   labels, default folds == explicit occurrence folds                            the part of the poisson clause that a
                                                                                 last-fold-only estimator still satisfies, kept
                                                                                 apart so that it stays a live regression guard
+
+Findings on the current tree (C02_findings.md): the default fold descriptor inherits the dtype of the condition labels
+(F2a 1-character str labels with >= 11 repetitions, F2b bool labels, F2c str labels with >= 11 repetitions and per-fold
+precisions); each has its own input_class in the domain C02/default-folds-many-repetitions.
 
 NOT covered by this tier
 * "for all datasets": everything is bounded (sizes in the `domain` strings); the all-reals identities are engine B's.
@@ -196,23 +201,25 @@ def _spec(X, conds, folds, noise=None, remove_mean=False, poisson=None):
         if remove_mean:
             x = x - x.mean(axis=2, keepdims=True)
         left, right = x, x
+    # metric of every ordered pair of distinct folds (m, n); a fold is never paired with itself
+    W = {}
+    for m in range(M):
+        for n in range(M):
+            if m == n:
+                continue
+            if poisson is not None or noise is None:
+                W[m, n] = np.eye(P)
+            elif noise[0] == 'single':
+                W[m, n] = noise[1]
+            else:       # precision of the two folds' averaged covariance
+                W[m, n] = np.linalg.inv((np.linalg.inv(noise[1][m]) + np.linalg.inv(noise[1][n])) / 2.0)
     out = np.zeros((C, C))
     for a in range(C):
-        for b in range(C):
-            acc, n_pairs = 0.0, 0
-            for m in range(M):
-                for n in range(M):
-                    if m == n:
-                        continue    # products of a fold with itself never contribute
-                    if poisson is not None or noise is None:
-                        W = np.eye(P)
-                    elif noise[0] == 'single':
-                        W = noise[1]
-                    else:       # precision of the two folds' averaged covariance
-                        W = np.linalg.inv((np.linalg.inv(noise[1][m]) + np.linalg.inv(noise[1][n])) / 2.0)
-                    acc += (left[m, a] - left[m, b]) @ W @ (right[n, a] - right[n, b])
-                    n_pairs += 1
-            out[a, b] = acc / n_pairs / P
+        for b in range(a + 1, C):
+            acc = 0.0
+            for (m, n), Wmn in W.items():
+                acc += (left[m, a] - left[m, b]) @ Wmn @ (right[n, a] - right[n, b])
+            out[a, b] = out[b, a] = acc / len(W) / P
     return uc, out
 
 
@@ -728,7 +735,7 @@ def tier_c(run, thorough):
     bd.done()
     bds.append(bd)
 
-    # ---- 6. poisson_cv value (KNOWN FINDING class 'poisson_cv') ----------------------------------------------------
+    # ---- 6. poisson_cv value (finding F1, class 'poisson_cv') ---------------------------------------------------------
     bd = Bounded(run, 'C02/poisson-value', 'C02/calc_rdm_poisson_cv/oracle/mean-of-between-fold-products',
                  'seeded count data (incl. zeros); conditions 2..4 x folds 2..%d x repetitions 1..2 x channels 1..4; prior_lambda in '
                  '{1, 0.5}, prior_weight in {0.1, 1}; all label kinds and row orders; via calc_rdm and calc_rdm_poisson_cv; every '
